@@ -42,6 +42,16 @@ def main(run):
         if not q:
             js.append(dict(j, cfg="asan64", fill=0xFF))
             js.append(dict(j, cfg="asan32", fill=0x00))
+    # the blob layer once more on a build WITHOUT the exact-size hook (1 KiB pages): growth inside a page, page crossings
+    try:
+        bl = [j for j in importlib.import_module("vlib.checks.c07_misc").jobs("quick", 1.0 if not q else 0.3) if j["unit"].endswith("unit_blob")]
+    except Exception:
+        bl = []
+    for j in bl:
+        j = dict(j)
+        j.pop("cfg", None)
+        js.append(dict(j, cfg="rel64", fill=0xA5))
+        js.append(dict(j, cfg="rel64", fill=0x00))
     if not q:
         # 3. memcheck on the Release build with unfilled scratch for a sample of the jobs
         sample = [j for i, j in enumerate(_collect(MODULES, "quick", 0.02, {"c13": 8, "c16": 6, "c02": 5, "c17": 4, "c06": 6,
@@ -80,7 +90,10 @@ def main(run):
     # keep only what C07 states
     tallied = {}
     for key in list(run.viol):
-        if not key.startswith(SANITIZER_PREFIXES):
+        unit = ((run.viol[key].get("info") or {}).get("job") or {}).get("unit", "")
+        if not key.startswith(SANITIZER_PREFIXES) and not unit.startswith("c07_misc:"):
+            # (value keys of c07_misc stay: those functions belong to no other property's workload, and what its oracles
+            # judge -- stale or undefined octets in a grown blob, pointers of a copied object -- is C07's matter)
             tallied[key] = run.viol.pop(key)["count"]
     run.coverage_extra["functional_violation_keys_tallied_only"] = sorted(tallied)[:50]
     # which public entry points did the workloads drive directly (the others are reached only indirectly or not at all)
